@@ -1,7 +1,9 @@
 (* C17 — Embedded optimisation and clustering algorithms keep their contracts.
    Only the property theorems, each closed by `exact` (or by evaluation for witnesses). *)
-From Coq Require Import Permutation.
+From Coq Require Import Permutation QArith Sorted.
 From VRP Require Import Base.Tac Model.Dbscan Model.Lkh Model.KMedoids Proofs.DbscanP Proofs.LkhP Proofs.LkhCostP Proofs.KMedoidsP.
+From VRP Require Import Model.ClusterWrappers Proofs.ClusterWrappersP.
+Local Open Scope Z_scope.
 Local Open Scope nat_scope.
 
 (* ================================================================ density clustering (dbscan.rs :: create_clusters)
@@ -198,3 +200,113 @@ Theorem C17_kmedoids_nonvacuous :
   create_kmedoids (dmat line8) halves sort_nat [0;1;2;5;6;7] 2 = [(1, [0;1;2]); (6, [5;6;7])]
   /\ check_kmedoids line8 [0;1;2;5;6;7] [(1, [0;1;2]); (6, [5;6;7])] = [].
 Proof. vm_compute. split; reflexivity. Qed.
+
+(* the distance function is directed: `d p med` is distance_fn(point, medoid), FROM the point TO the medoid, at every call site
+   of the model as in kmedoids.rs (first medoid: d a p summed over p; next medoid and assignment: d point medoid; update:
+   d point candidate summed over the cluster).  Nothing above assumes d a b = d b a.  On this one-way instance (going up
+   inside a group costs 1-2, going back 9) the medoids are the points everybody REACHES cheaply (2 and 5), although
+   0 and 3 are the points that reach everybody cheaply; the contract holds in the point->medoid direction and fails in the
+   medoid->point direction *)
+Definition oneway6 : list (list Z) :=
+  [[0;1;2;30;31;32];[9;0;1;30;31;32];[9;9;0;30;31;32];[30;31;32;0;1;2];[30;31;32;9;0;1];[30;31;32;9;9;0]]%Z.
+Theorem C17_kmedoids_directed_nonvacuous :
+  create_kmedoids (dmat oneway6) halves sort_nat [0;1;2;3;4;5] 2 = [(2, [0;1;2]); (5, [3;4;5])]
+  /\ check_kmedoids oneway6 [0;1;2;3;4;5] [(2, [0;1;2]); (5, [3;4;5])] = []
+  /\ (dmat oneway6 0 2 < dmat oneway6 2 0)%Z
+  /\ check_kmedoids oneway6 [0;1;2;3;4;5] [(0, [0;1;2]); (3, [3;4;5])] = []
+  /\ check_kmedoids oneway6 [0;1;2;3;4;5] [(0, [0;1;2;5]); (3, [3;4])] = [2].
+Proof. vm_compute. repeat split; reflexivity. Qed.
+
+(* ================================================================ the wrappers between the algorithms and the solver
+   (Model/ClusterWrappers.v)
+
+   create_job_clusters (construction/clustering/dbscan/neighbour_clusters.rs; called by Jobs::new for Jobs::clusters(), which
+   the cluster-removal ruin reads, and by `vrp-cli analyze clusters`): hasloc = job_has_locations, the rows of the FIRST fleet
+   profile are prow0 (row j = what neighbour_fn(profile, j) yields), min_points = max(given or 3, 2), epsilon = given or
+   estimated (jc_epsilon).  The neighbourhood it constructs is `jc_neighbours`: the jobs with locations in front of the first
+   located entry whose cost is not below epsilon.  Its clusters, read as SETS (they are HashSets: any rearrangement cs' of
+   every cluster), satisfy the DBSCAN contract w.r.t. that neighbourhood: pairwise disjoint; each contains one of the given
+   jobs that is a core job from which every member is density-reachable; no given job with locations that is a core job is
+   left out; only jobs with locations are clustered.  Nothing is dropped or merged after dbscan::create_clusters. *)
+Theorem C17_job_clusters_terminates : forall hasloc rows jobs mp eps,
+  create_job_clusters hasloc rows jobs mp eps <> JFuel.
+Proof. exact create_job_clusters_total. Qed.
+
+Theorem C17_job_clusters_error_iff_no_profile : forall hasloc rows jobs mp eps,
+  create_job_clusters hasloc rows jobs mp eps = JErr <-> rows = [].
+Proof. exact create_job_clusters_err. Qed.
+
+Theorem C17_job_clusters_is_dbscan : forall hasloc prow0 rest jobs mp eps cs,
+  create_job_clusters hasloc (prow0 :: rest) jobs mp eps = JOk cs <->
+  create_clusters (jc_table hasloc (jc_epsilon hasloc (prow0 :: rest) jobs mp eps) prow0) (jc_min_points mp) (filter hasloc jobs)
+  = Some cs.
+Proof. exact create_job_clusters_is_dbscan. Qed.
+
+Theorem C17_job_clusters_contract : forall hasloc prow0 rest jobs mp eps cs,
+  create_job_clusters hasloc (prow0 :: rest) jobs mp eps = JOk cs ->
+  let e := jc_epsilon hasloc (prow0 :: rest) jobs mp eps in
+  let tbl := jc_table hasloc e prow0 in
+  let minp := jc_min_points mp in
+  (forall j, nbrs tbl j = jc_neighbours hasloc e (nth j prow0 []))
+  /\ 2 <= minp
+  /\ forall cs', Forall2 (@Permutation nat) cs cs' ->
+       NoDup (concat cs')
+       /\ (forall c, In c cs' -> exists p, In p c /\ In p jobs /\ core tbl minp p /\ forall q, In q c -> dreach tbl minp p q)
+       /\ (forall j, In j jobs -> hasloc j = true -> core tbl minp j -> exists c, In c cs' /\ In j c)
+       /\ (forall c j, In c cs' -> In j c -> hasloc j = true).
+Proof. exact create_job_clusters_contract. Qed.
+
+(* the constructed neighbourhood: only jobs with locations at a cost below epsilon; for a row sorted by cost (what the job
+   index stores) ALL of them *)
+Theorem C17_job_neighbourhood_sound : forall hasloc eps row q,
+  In q (jc_neighbours hasloc eps row) ->
+  hasloc q = true /\ exists c, In (q, c) row /\ (inject_Z c < eps)%Q.
+Proof. exact jc_neighbours_sound. Qed.
+
+Theorem C17_job_neighbourhood_complete : forall hasloc eps row q c,
+  StronglySorted (fun a b : nat * Z => (snd a <= snd b)%Z) row ->
+  In (q, c) row -> hasloc q = true -> (inject_Z c < eps)%Q ->
+  In q (jc_neighbours hasloc eps row).
+Proof. exact jc_neighbours_complete. Qed.
+
+(* non-vacuity, on the shape of seeded/C17-5: nine jobs on a line at 0 1 2 3 | 6 | 9 10 11 | 30, rows sorted by cost,
+   min_points 3, epsilon 3.5.  Job 4 (at 6) is a border job within reach of the cores 3 and 5; whichever group is visited
+   first claims it.  The other group is a legitimate cluster of NO MORE than min_points members whose seed is a core job
+   (job 5 has exactly 3 neighbours: 6, 7, 4): a wrapper that dropped clusters with `len <= min_points` would leave this
+   core job unclustered.  With the estimated epsilon (5/2, what Jobs::new uses) the dense group alone is found. *)
+Definition line_pos : list Z := [0;1;2;3;6;9;10;11;30]%Z.
+Fixpoint ins_cost (x : nat * Z) (l : nrow) : nrow :=
+  match l with [] => [x] | y :: r => if (snd x <=? snd y)%Z then x :: l else y :: ins_cost x r end.
+Definition line_rows : list nrow :=
+  map (fun i => fold_right ins_cost [] (map (fun j => (j, Z.abs (nth j line_pos 0 - nth i line_pos 0))%Z)
+                                            (filter (fun j => negb (j =? i)) (seq 0 9)))) (seq 0 9).
+Theorem C17_job_clusters_nonvacuous :
+  create_job_clusters (fun _ => true) [line_rows] (seq 0 9) (Some 3) (Some (7 # 2)%Q) = JOk [[0;1;2;3;4]; [5;6;7]]
+  /\ create_job_clusters (fun _ => true) [line_rows] (rev (seq 0 9)) (Some 3) (Some (7 # 2)%Q) = JOk [[5;6;7;4]; [3;2;1;0]]
+  /\ nbrs (jc_table (fun _ => true) (7 # 2)%Q line_rows) 5 = [6;7;4]
+  /\ core (jc_table (fun _ => true) (7 # 2)%Q line_rows) (jc_min_points (Some 3)) 5
+  /\ length [5;6;7] <= jc_min_points (Some 3)
+  /\ Qred (jc_epsilon (fun _ => true) [line_rows] (seq 0 9) (Some 3) None) = (5 # 2)%Q
+  /\ create_job_clusters (fun _ => true) [line_rows] (seq 0 9) (Some 3) None = JOk [[1;0;2;3]].
+Proof. vm_compute. repeat split; reflexivity. Qed.
+
+(* create_multi_tier_clusters (construction/clustering/kmedoids/multi_tier_clusters.rs): all matrix locations 0..size, the
+   directed distance `distance_approx(profile, from, to)`, one k-medoids run per k <= size/3 of the fixed list.  Every tier
+   is a partition of the locations in which no location is closer (location -> medoid) to another tier medoid than to its
+   own; and no tier is lost by the `!is_empty` filter. *)
+Theorem C17_multi_tier_contract : forall d chunks ord size,
+  (forall l, Permutation (ord l) l) ->
+  forall m, In m (create_multi_tier_clusters d chunks ord size) ->
+    Permutation (flat_map snd m) (seq 0 size)
+    /\ (forall med c p med' c', In (med, c) m -> In p c -> In (med', c') m -> (d p med <= d p med')%Z).
+Proof. exact multi_tier_contract. Qed.
+
+Theorem C17_multi_tier_tiers : forall d chunks ord size,
+  (forall l, Permutation (ord l) l) ->
+  create_multi_tier_clusters d chunks ord size
+  = map (fun k => create_kmedoids d chunks ord (seq 0 size) k) (filter (fun k => k <=? size / 3) multi_tier_ks).
+Proof. exact multi_tier_tiers. Qed.
+
+Theorem C17_multi_tier_nonvacuous :
+  create_multi_tier_clusters (dmat oneway6) halves sort_nat 6 = [[(2, [0;1;2]); (5, [3;4;5])]].
+Proof. vm_compute. reflexivity. Qed.
